@@ -186,40 +186,28 @@ func c07XTGETTCAPStatus(c *Ctx) {
 	c.expect("C07.c", 2)
 	fi := c.P.Func("vaxis.(*Vaxis).handleSequence")
 	if fi == nil {
+		c.undecided("C07.c", "vaxis.(*Vaxis).handleSequence", 0, "handleSequence not found")
 		return
 	}
-	info := fi.Pkg.TypesInfo
-	g := c.P.Graph(fi)
-	for _, h := range g.Calls(func(fn *types.Func, _ *ast.CallExpr) bool { return fn != nil && fn.Name() == "PostEventBlocking" }) {
-		call := h.Node.(*ast.CallExpr)
-		cl, ok := unparen(call.Args[0]).(*ast.CompositeLit)
-		if !ok {
-			continue
+	n := 0
+	for _, p := range c07Posts(c, func(ev string) bool { return ev == "truecolor" || ev == "styledUnderlines" }) {
+		gk := p.gk
+		if !containsStr(gk, "DCS.Intermediate[0]==43") {
+			continue // not the XTGETTCAP reply (COLORTERM, VTE tertiary DA)
 		}
-		ev := types.ExprString(cl.Type)
-		if ev != "truecolor" && ev != "styledUnderlines" {
-			continue
-		}
-		gk := guardKeys(g, h.Loc)
-		isXT := false
-		for _, k := range gk {
-			if k == "seq.Intermediate[0]==43" {
-				isXT = true
-			}
-		}
-		if !isXT {
-			continue
-		}
-		okS := containsStr(gk, "seq.Parameters[0]!=0") || containsStr(gk, "seq.Parameters[0]==1")
+		n++
+		okS := containsStr(gk, "DCS.Parameters[0]!=0") || containsStr(gk, "DCS.Parameters[0]==1")
 		okL := false
 		for _, k := range gk {
 			if strings.HasPrefix(k, "len(DCS.Parameters)>=1") || strings.HasPrefix(k, "len(DCS.Parameters)!=0") || strings.HasPrefix(k, "len(DCS.Parameters)>0") {
 				okL = true
 			}
 		}
-		_ = info
-		c.check(okS && okL, "C07.c", fi.Name+"/"+ev+" posted only for a positive XTGETTCAP reply", call.Pos(), "status parameter present and non-zero",
-			"capability event "+ev+" is posted for an XTGETTCAP reply whose status is not tested (guards "+strings.Join(gk, " ∧ ")+"): a negative reply (DCS 0 + r name) that echoes the name turns the capability on")
+		c.check(okS && okL, "C07.c", fi.Name+"/"+p.ev+" posted only for a positive XTGETTCAP reply", p.pos, "status parameter present and non-zero",
+			"capability event "+p.ev+" is posted for an XTGETTCAP reply whose status is not tested (guards "+strings.Join(gk, " ∧ ")+"): a negative reply (DCS 0 + r name) that echoes the name turns the capability on")
+	}
+	if n < 2 {
+		c.undecided("C07.c", fi.Name+"/XTGETTCAP capability posts", fi.Decl.Pos(), "expected the truecolor and styledUnderlines posts of the XTGETTCAP reply (DCS + r), found %d", n)
 	}
 }
 
